@@ -16,6 +16,9 @@ FLAT = z3.Function("flatten", LL.sort(), LInt.sort())
 EDGES = z3.Function("motif_edges", Fn.sort(), LInt.sort(), LP.sort())      # the edges of one motif instance, as a sequence (a bare edge counts as a one-element sequence)
 NAMEL = z3.Function("motif_edge_names", Fn.sort(), LName.sort())           # the names of one motif's edges, as a sequence (a bare name counts as a one-element sequence)
 
+SHAPE_SRC = ("forall(j, 0, len(self._motif_indices), forall_elem(v, LInt, names_custom(self._edge_names[j]).bare == build_custom(self._build_functions[j], v).bare and "
+             "len(motif_edge_names(self._edge_names[j])) == len(motif_edges(self._build_functions[j], v))))")
+
 def build(reg):
     reg.type("Name", Name)
     f = z3.Const("f_", Fn.sort()); vs = z3.Const("vs_", LInt.sort())
@@ -83,8 +86,28 @@ def build(reg):
     EL = me.cls("LightWeightEdgeList", fields={"_edge_list": LP, "_topologies": LName, "_joint_degrees": JDS, "_motif_id": LInt},
                 properties={"edge_list": "_edge_list", "topologies": "_topologies", "joint_degrees": "_joint_degrees", "motif_id": "_motif_id"})
     me.fn("LightWeightEdgeList.__init__", ensures={"empty": "len(self._edge_list) == 0 and len(self._topologies) == 0 and len(self._joint_degrees) == 0 and len(self._motif_id) == 0"})
+    # ---- constructors: the generator works on exactly the sizes, callbacks and orbit index lists it was given (order included)
+    from vf.idioms import params_record
+    PG = params_record(reg, "GCMAlgorithmNames", {"MOTIF_SIZES": LInt, "BUILD_FUNCTIONS": LFn, "EDGE_NAMES": LFn, "MOTIF_INDICES": LL}, typename="Params_gcm_custom")
+    mb = reg.module("gcmpy/gcm_algorithm/gcm_algorithm.py")
+    mb.cls("GCMAlgorithm", fields={"_motif_sizes": LInt, "_edge_names": LFn, "_build_functions": LFn})
+    BASE_KEYS = "params.has_MOTIF_SIZES and params.has_BUILD_FUNCTIONS and params.has_EDGE_NAMES"
+    mb.fn("GCMAlgorithm.__init__", params={"params": PG}, assigns=["_motif_sizes", "_build_functions", "_edge_names"],
+          ensures={"stores_the_parameters_unchanged": "self._motif_sizes == params.MOTIF_SIZES and self._build_functions == params.BUILD_FUNCTIONS and self._edge_names == params.EDGE_NAMES", "params_untouched": "params == old(params)"},
+          raises={"TypeError": dict(when=f"not ({BASE_KEYS})")})
     m = reg.module("gcmpy/gcm_algorithm/gcm_algorithm_custom_motifs.py")
-    m.cls("GCMAlgorithmCustomMotifs", fields={"_motif_sizes": LInt, "_edge_names": LFn, "_build_functions": LFn, "_motif_indices": LL})
+    m.cls("GCMAlgorithmCustomMotifs", fields={"_motif_sizes": LInt, "_edge_names": LFn, "_build_functions": LFn, "_motif_indices": LL}, bases=["GCMAlgorithm"])
+    # ---- partition(lst, n): consecutive n-slices, as many as range(0, len(lst), n) has elements
+    m.fn("GCMAlgorithmCustomMotifs.partition", params={"lst": LInt, "n": INT}, ret=LL, opaque_arith="all",
+         requires={"size_positive": "n >= 1"},
+         ensures={"one_chunk_per_start": "len(result) == len(range(0, len(lst), n))",
+                  "chunk_is_the_slice": "forall(p, 0, len(result), result[p] == lst[p * n : p * n + n], trigger=result[p])",
+                  "frame": "self == old(self) and lst == old(lst)"})
+    m.fn("GCMAlgorithmCustomMotifs.__init__", params={"params": PG},
+         ensures={"orbit_index_lists_stored_unchanged": "self._motif_indices == params.MOTIF_INDICES",
+                  "base_parameters_stored_unchanged": "self._motif_sizes == params.MOTIF_SIZES and self._build_functions == params.BUILD_FUNCTIONS and self._edge_names == params.EDGE_NAMES",
+                  "params_untouched": "params == old(params)"},
+         raises={"TypeError": dict(when=f"not ({BASE_KEYS} and params.has_MOTIF_INDICES)")})
     E = "EdgeList"; MID = f"{E}._motif_id[p]"
     RES = "motif_edges(self._build_functions[rec_j[{m}]], rec_vs[{m}])"; NMS = "motif_edge_names(self._edge_names[rec_j[{m}]])"
     COLS = {"par1": f"len({E}._edge_list) == len({E}._topologies)", "par2": f"len({E}._edge_list) == len({E}._motif_id)", "gen": "gen >= 0", "jds": f"{E}._joint_degrees == jds",
@@ -97,8 +120,7 @@ def build(reg):
             "chain": f"forall(m, 0, gen - 1, rec_start[m + 1] == rec_start[m] + len({RES.format(m='m')}))",
             "chainN": f"(rec_start[gen - 1] + len({RES.format(m='gen - 1')}) == len({E}._edge_list)) if gen > 0 else (len({E}._edge_list) == 0)",
             "recj": "forall(m, 0, gen, 0 <= rec_j[m] and rec_j[m] < len(self._motif_indices))", "frame": "self == old(self) and jds == old(jds)"}
-    SHAPE = ("forall(j, 0, len(self._motif_indices), forall_elem(v, LInt, names_custom(self._edge_names[j]).bare == build_custom(self._build_functions[j], v).bare and "
-             "len(motif_edge_names(self._edge_names[j])) == len(motif_edges(self._build_functions[j], v))))")
+    SHAPE = SHAPE_SRC
     reg.type("LInt", LInt)
     ghost = {"rec_j": ARR, "rec_start": ARR, "rec_vs": ArrT(INT, LInt)}
     m.fn("GCMAlgorithmCustomMotifs.random_clustered_graph", params={"jds": JDS, **ghost}, ghost=list(ghost), ret=EL.ty, locals={"partitions": LLL, "vertices": LL},
@@ -115,4 +137,4 @@ def build(reg):
                 3: dict(inv={**COLS, "j": "forall(m, 0, gen, rec_j[m] <= j)", "ctx": "0 <= j and j < len(self._motif_indices) and motif_indexes == self._motif_indices[j]"},
                         ghost_end=["rec_j[id] = j", "rec_vs[id] = vertices", f"rec_start[id] = len({E}._edge_list) - len(motif_edges(self._build_functions[j], vertices))"]),
                 4: dict(inv={**COLS, "j": "forall(m, 0, gen, rec_j[m] <= j)", "ctx": "0 <= j and j < len(self._motif_indices) and motif_indexes == self._motif_indices[j]"})})
-    return ["LightWeightEdgeList.__init__", "GCMAlgorithmCustomMotifs.random_clustered_graph"]
+    return ["LightWeightEdgeList.__init__", "GCMAlgorithm.__init__", "GCMAlgorithmCustomMotifs.__init__", "GCMAlgorithmCustomMotifs.partition", "GCMAlgorithmCustomMotifs.random_clustered_graph"]
